@@ -110,7 +110,7 @@ theorem C07_shrink_iteration (s s' : State) (i n old : Nat) (c : Bool) (o : Obj)
     (hsz : s.size > s.maxSize) (hp : 0 < s.sem.permits) (hc : s.sem.closed = false)
     (hi : s.idle = o :: rest) (h : stepResize s i n c .shrink old = some s') :
     s'.idle = rest ∧ s'.size = s.size - 1 ∧ s'.sem.permits + 1 = s.sem.permits ∧
-    s'.debt = s.debt - 1 ∧ s'.log = s.log ++ [.detach i o.id, .destroy o.id] := by
+    s'.debt = s.debt - 1 ∧ s'.log = s.log ++ [.detach i o.id, .destroy i o.id] := by
   have hne : ¬ s.sem.permits = 0 := by omega
   simp only [stepResize, hsz, if_true, Sem.tryAcquire, hc, Bool.false_eq_true, if_false, hne, hi,
     Option.some.injEq] at h
